@@ -17,6 +17,8 @@ CLAIMS = {
     "C14": ("marker gate, read order, header magic gate, error latch, clean-end-only-on-first-byte in the container reader, as dominance/edge-region facts",
             "static analysis: dominance / must-pass-through over MIR CFG"),
 }
+CLAIMS["C19"] = ("type-level facts for every static of both crates (no static mut, settings are immutable OnceLock, other interior-mutable statics classified), who-may-access sets, single default installer, accessor return-value dataflow, DEFAULT-constant rule on internal limit reads, guard polarity",
+                 "static analysis: compiler type facts + who-may-access + dataflow over MIR")
 NA_DEFAULT = "check under construction in this round (see DESIGN.md); not yet claimed"
 
 
